@@ -124,6 +124,9 @@ func newGocritic() (*gocritic, error) {
 	critic := &gocritic{
 		infoList: filterCheckersList(registeredCheckers),
 	}
+	if len(critic.infoList) == 0 {
+		return nil, fmt.Errorf("empty checkers set selected")
+	}
 
 	ver, err := linter.ParseGoVersion(flagGoVersion)
 	if err != nil {
